@@ -116,6 +116,7 @@ package dns
 //@   fresh
 //@ extern (net.IP).To4
 //@   ensures ret0 == nil || len(ret0) == 4
+//@   ensures four: len(ip) == 4 ==> ret0 != nil && sliceoff(ret0) == sliceoff(ip)
 //@   ensures ret0 == nil || ref(ret0) == ref(ip)
 //@   pure
 //@ extern (net.IP).To16
